@@ -403,12 +403,24 @@ class TermExecutor(Executor):
             fmt = fmt_src.lstrip("<>=!@")
             rng = {"B": (0, 255), "H": (0, 65535), "I": (0, 2**32 - 1), "L": (0, 2**32 - 1), "Q": (0, 2**64 - 1),
                    "b": (-128, 127), "h": (-2**15, 2**15 - 1), "i": (-2**31, 2**31 - 1), "l": (-2**31, 2**31 - 1), "q": (-2**63, 2**63 - 1)}
-            if fmt and all(ch in rng for ch in fmt):
+            # counted items (`2H` = two integers, `4s` / `4p` = ONE bytes object, `x` = pad byte, no item), whitespace ignored
+            codes = []
+            for cnt, ch in re.findall(r"(\d*)([A-Za-z?])", fmt) if re.fullmatch(r"(?:\s*\d*[A-Za-z?])*\s*", fmt) else [("", "\0")]:
+                if ch in ("s", "p"):
+                    codes.append(ch)
+                elif ch == "x":
+                    continue
+                else:
+                    codes.extend([ch] * (int(cnt) if cnt else 1))
+            if codes and len(codes) <= 64 and all(ch in rng or ch in ("s", "p") for ch in codes):
                 outs = []
                 for (s2, _a) in self.ev_list(rest_args, st):
                     self.exc_any(s2.fork(), f"{self.loc(n)} struct.unpack")
                     items = []
-                    for ch in fmt:
+                    for ch in codes:
+                        if ch in ("s", "p"):
+                            items.append(VUnk(fresh_name("unpacked_bytes")))
+                            continue
                         t = z3.Int(fresh_name("unpacked"))
                         s2.assume(z3.And(t >= rng[ch][0], t <= rng[ch][1]))
                         items.append(VInt(t))
